@@ -381,9 +381,9 @@ def _find_base(ti, dst, addr):
     o = rt.OBJ.get(ti >> 32)
     if o is None: return None
     vt = ld(ti, 8)
-    if vt == rt.TI_SI_VTABLE[0] and o.size >= 24:
+    if vt in rt.TI_SI_VTABLE[0] and o.size >= 24:
         return _find_base(ld(ti + 16, 8), dst, addr)
-    if vt == rt.TI_SI_VTABLE[2] and o.size >= 24:
+    if vt in rt.TI_SI_VTABLE[2] and o.size >= 24:
         n = ld(ti + 20, 4)
         for i in range(n):
             b = ld(ti + 24 + 16 * i, 8); fl = ld(ti + 32 + 16 * i, 8)
@@ -520,8 +520,7 @@ def _ios_of(os_):
     off = ld(vt - 24, 8)
     return (os_ + off) & M64
 def _ostream_write(os_, data):
-    f = rt.MODULE[0].NAMES.get('_ZSt16__ostream_insertIcSt11char_traitsIcEERSt13basic_ostreamIT_T0_ES6_PKS3_l')
-    if f is None: f = EXT.get('_ZSt16__ostream_insertIcSt11char_traitsIcEERSt13basic_ostreamIT_T0_ES6_PKS3_l')
+    f = rt.find_fn('_ZSt16__ostream_insertIcSt11char_traitsIcEERSt13basic_ostreamIT_T0_ES6_PKS3_l')
     buf = rt.make_bytes(data, 'heap', 'formatted number')
     try: f(os_, buf, len(data))
     finally: rt.OBJ.pop(buf >> 32, None)
@@ -586,7 +585,7 @@ def _str_assign(sp, data):
     n = len(data)
     buf = rt.new_obj(max(n, 1), 'heap', 'getline buffer')
     for i, c in enumerate(data): st(buf + i, 1, c)
-    f = rt.MODULE[0].NAMES.get('_ZNSt7__cxx1112basic_stringIcSt11char_traitsIcESaIcEE10_M_replaceEmmPKcm')
+    f = rt.find_fn('_ZNSt7__cxx1112basic_stringIcSt11char_traitsIcESaIcEE10_M_replaceEmmPKcm')
     f(sp, 0, ld(sp + 8, 8), buf, n)
     rt.OBJ.pop(buf >> 32, None)
 @ext('_ZSt7getlineIcSt11char_traitsIcESaIcEERSt13basic_istreamIT_T0_ES7_RNSt7__cxx1112basic_stringIS4_S5_T1_EES4_')
